@@ -15,12 +15,12 @@ RULE = (
     "estimate / information / offset object reused by several edges), then up to 50 operations drawn from: edge.calc_error, edge.calc_chi2, "
     "graph.calc_chi2, calc_jacobians (analytic), BaseEdge.calc_jacobians (numeric fallback), calc_chi2_gradient_hessian, equals (pose / vertex / "
     "edge / graph against clones), to_g2o (strings and file export), pose operators and all Jacobian methods on poses taken from the graph, copy "
-    "followed by mutation of the copy, optimize(k). Invariant after every step: a bit-pattern snapshot of every pose, estimate, offset, "
+    "followed by mutation of the copy, optimize(k), and a fresh-graph differential (every query answers bit-identically on a graph rebuilt from the current state). Invariant after every step: a bit-pattern snapshot of every pose, estimate, offset, "
     "information matrix, id, vertex_ids, fixed flag and object identity equals the model snapshot (the model is updated only by optimize: vertex "
     "poses replaced, first fixed flag set iff asked); every query is issued twice and must return bit-identical values. Non-trivial = the history "
     "contains a numeric-Jacobian call between two optimizer runs, or the graph has a shared object."
 )
-BUDGET = {"quick": 16 * 150, "thorough": 16 * 4000}
+BUDGET = {"quick": 16 * 300, "thorough": 16 * 4000}
 TOLERANCES = {"state": "bitwise (float64 bit patterns, ids, flags, object identity)", "repeated query": "bitwise identical return values"}
 ASSUMPTIONS = ["optimize() is allowed to rebind vertex.pose objects; everything else must keep identity and bits"]
 
@@ -39,6 +39,8 @@ OPS = [
     "pose.copy_mutate",
     "optimize",
     "optimize",
+    "fresh-differential",
+    "fresh-differential",
 ]
 
 
@@ -76,6 +78,11 @@ def strategy_(g):
                 ei["off"] = ej["off"]
                 share.append([i, j, "off"])
     case["share"] = share
+    if g.choice([False, False, False, False, True]):
+        # nothing fixed at all (optimize(fix_first_pose=False) then solves a singular system: still only poses may change)
+        for v in case["verts"]:
+            v["fixed"] = False
+        case["unanchored"] = True
     nops = g.integer(3, 50)
     ops = []
     for _ in range(nops):
@@ -170,9 +177,11 @@ def _ret_bits(x):
 
 
 def _clone_graph(case, g):
-    from .c12 import rebuild
-
-    c = rebuild(case, g)
+    """A fresh graph (built exactly like the original, including the object sharing) with bit-identical state."""
+    c = build_shared(case)
+    for v_new, v_old in zip(c._vertices, g._vertices):
+        v_new.pose = gs.mk_pose_exact(gs.kind_of(v_old.pose), np.asarray(v_old.pose))
+        v_new.fixed = bool(v_old.fixed)
     return c
 
 
@@ -304,6 +313,19 @@ def check(case, ctx):
                     np.asarray(c2)[0] -= 2.0
                     if gs.bits(est) != e0:
                         return ctx.fail("copy-not-independent", "mutating a copy of an estimate changed the estimate")
+            elif op == "fresh-differential":
+                # every query on the long-lived graph equals the same query on a fresh graph rebuilt from the current
+                # state (results depend on the current state only - no cache left over from earlier calls)
+                c = _clone_graph(case, g)
+                for i, (ea, eb) in enumerate(zip(g._edges, c._edges)):
+                    if i != o["a"] % ne and i != o["b"] % ne:
+                        continue
+                    qa = ([np.array(J) for J in ea.calc_jacobians()], np.array(ea.calc_error()), ea.calc_chi2(), ea.calc_chi2_gradient_hessian())
+                    qb = ([np.array(J) for J in eb.calc_jacobians()], np.array(eb.calc_error()), eb.calc_chi2(), eb.calc_chi2_gradient_hessian())
+                    if _ret_bits(qa) != _ret_bits(qb):
+                        return ctx.fail("query-depends-on-history", "step %d: edge #%d answers differently on the long-lived graph and on a fresh graph with the same state" % (step, i))
+                if _ret_bits(g.calc_chi2()) != _ret_bits(c.calc_chi2()):
+                    return ctx.fail("query-depends-on-history", "step %d: Graph.calc_chi2 differs between the long-lived graph and a fresh graph with the same state" % step)
             elif op == "optimize":
                 if seen_opt >= 1 and numeric_since_opt:
                     numeric_between = True
